@@ -180,8 +180,9 @@ struct Rec {
 #[derive(Clone, Debug, PartialEq, Eq)]
 enum Verdict {
     Good(Rec),
-    /// malformed: kind, and the phrase field as far as it can be told
-    Bad(&'static str, Option<String>),
+    /// malformed: every defect found (the first is the one named in messages), and the phrase field as
+    /// far as it can be told
+    Bad(Vec<&'static str>, Option<String>),
 }
 
 fn unquote(s: &str) -> &str {
@@ -193,33 +194,35 @@ fn is_sep(c: char) -> bool {
 }
 
 /// strict reading of one source line: phrase, u32 frequency, then one valid syllable per character,
-/// optionally followed by a `#` comment
+/// optionally followed by a `#` comment.  All defects are collected, so that a line is attributed to a
+/// known class only if it has no other defect.
 fn judge(line: &str, delim: char) -> Verdict {
     let fields: Vec<&str> = line.split(delim).filter(|f| !f.is_empty()).collect();
     if fields.is_empty() {
-        return Verdict::Bad("empty", None);
+        return Verdict::Bad(vec!["empty"], None);
     }
+    let mut bad: Vec<&'static str> = vec![];
     let phrase = unquote(fields[0]).to_string();
     if phrase.is_empty() {
-        return Verdict::Bad("empty-phrase", Some(phrase));
+        bad.push("empty-phrase");
+    } else if phrase.chars().any(is_sep) {
+        bad.push("phrase-chars");
     }
-    if phrase.chars().any(is_sep) {
-        return Verdict::Bad("phrase-chars", Some(phrase));
-    }
+    let mut freq = 0u32;
     if fields.len() < 2 {
-        return Verdict::Bad("no-freq", Some(phrase));
+        bad.push("no-freq");
+    } else {
+        let f = unquote(fields[1]);
+        let v = if !f.is_empty() && f.bytes().all(|b| b.is_ascii_digit()) { f.parse::<u64>().ok() } else { None };
+        match v {
+            Some(v) if v <= u32::MAX as u64 => freq = v as u32,
+            _ => bad.push("bad-freq"),
+        }
     }
-    let f = unquote(fields[1]);
-    if f.is_empty() || !f.bytes().all(|b| b.is_ascii_digit()) {
-        return Verdict::Bad("bad-freq", Some(phrase));
-    }
-    let freq: u32 = match f.parse::<u64>() {
-        Ok(v) if v <= u32::MAX as u64 => v as u32,
-        _ => return Verdict::Bad("bad-freq", Some(phrase)),
-    };
     // the rest of the line after the first two separator-delimited tokens
     let toks: Vec<&str> = line.split(is_sep).filter(|t| !t.is_empty()).collect();
     let mut syls = vec![];
+    let mut bad_syl = false;
     for t in toks.iter().skip(2) {
         let t = unquote(t);
         if t.is_empty() {
@@ -229,17 +232,23 @@ fn judge(line: &str, delim: char) -> Verdict {
             break;
         }
         if !valid_syllable(t) {
-            return Verdict::Bad("bad-syllable", Some(phrase));
+            bad_syl = true;
+            break;
         }
         syls.push(t.to_string());
     }
-    if syls.is_empty() {
-        return Verdict::Bad("no-syllables", Some(phrase));
+    if bad_syl {
+        bad.push("bad-syllable");
+    } else if syls.is_empty() {
+        bad.push("no-syllables");
+    } else if !phrase.is_empty() && syls.len() != phrase.chars().count() {
+        bad.push("length-mismatch");
     }
-    if syls.len() != phrase.chars().count() {
-        return Verdict::Bad("length-mismatch", Some(phrase));
+    if bad.is_empty() {
+        Verdict::Good(Rec { phrase, freq, syls })
+    } else {
+        Verdict::Bad(bad, Some(phrase))
     }
-    Verdict::Good(Rec { phrase, freq, syls })
 }
 
 /// initial? medial? rime? tone? — each at most once, in this order, at least one symbol
@@ -561,16 +570,24 @@ fn src_text(lines: &[(String, Verdict)], crlf: bool, final_nl: bool) -> String {
     s
 }
 
-/// known-class of a malformed line the tool did not report (KNOWN_FINDINGS.txt), or "new"
-fn undetected_class(kind: &str, phrase: &Option<String>, cfg: Cfg) -> &'static str {
+/// known class (KNOWN_FINDINGS.txt) of a malformed line the tool did not report, or "new": every defect of
+/// the line must be one the unchanged parser is known not to look at under this configuration
+fn undetected_class(kinds: &[&'static str], phrase: &Option<String>, cfg: Cfg) -> &'static str {
     let single = phrase.as_ref().map(|p| p.chars().count() == 1).unwrap_or(false);
-    match kind {
-        "no-syllables" => "no-syllables",
-        "length-mismatch" => "length-mismatch",
-        "empty-phrase" => "empty-phrase",
-        "no-freq" | "bad-freq" if single && !cfg.keep => "word-freq-unchecked",
-        _ => "new",
+    let class_of = |k: &str| -> Option<&'static str> {
+        match k {
+            "no-syllables" => Some("no-syllables"),
+            "length-mismatch" => Some("length-mismatch"),
+            "empty-phrase" => Some("empty-phrase"),
+            "no-freq" | "bad-freq" if single && !cfg.keep => Some("word-freq-unchecked"),
+            _ => None,
+        }
+    };
+    let cs: Vec<Option<&'static str>> = kinds.iter().map(|k| class_of(k)).collect();
+    if cs.is_empty() || cs.iter().any(|c| c.is_none()) {
+        return "new";
     }
+    cs[0].unwrap()
 }
 
 #[allow(clippy::too_many_arguments)]
@@ -596,25 +613,34 @@ fn check_source(
     let first = if cfg.csv { 1 } else { 0 };
     let mut bad_lines = vec![];
     for (i, (_, v)) in lines.iter().enumerate().skip(first) {
-        if let Verdict::Bad(kind, ph) = v {
-            bad_lines.push((i, *kind, ph.clone()));
+        if let Verdict::Bad(kinds, ph) = v {
+            bad_lines.push((i, kinds.clone(), ph.clone()));
         }
     }
     let has_tone1 = lines.iter().skip(first).any(|(l, _)| l.contains('ˉ'));
+    // F18: the keys (as the dumper spells them) under which a record written with the first-tone mark reappears
+    let tone1_keys: Vec<Vec<String>> = lines
+        .iter()
+        .skip(first)
+        .filter_map(|(_, v)| match v {
+            Verdict::Good(x) if x.syls.iter().any(|y| y.contains('ˉ')) => Some(x.syls.iter().map(|y| y.replace('ˉ', "")).collect()),
+            _ => None,
+        })
+        .collect();
     // a trailing CR-less empty last line etc. are lines of the file as the tool reads it; `lines` mirrors that
     let mut undetected: Vec<(usize, &'static str, Option<String>)> = vec![];
-    for (i, kind, ph) in &bad_lines {
+    for (i, kinds, ph) in &bad_lines {
         if r.reported.contains(&(i + 1)) {
             st.detected += 1;
         } else {
-            let class = undetected_class(kind, ph, cfg);
-            if class == "new" {
-                fail(out, "new", format!("malformed line {} ({}) is not reported", i + 1, kind));
-            } else {
+            let class = undetected_class(kinds, ph, cfg);
+            if class != "new" {
                 st.undetected_known += 1;
-                fail(out, class, format!("malformed line {} ({}) is not reported", i + 1, kind));
             }
-            undetected.push((*i, kind, ph.clone()));
+            fail(out, class, format!("malformed line {} ({}) is not reported", i + 1, kinds.join("+")));
+            for k in kinds {
+                undetected.push((*i, *k, ph.clone()));
+            }
         }
     }
     for n in &r.reported {
@@ -704,7 +730,19 @@ fn check_source(
         record(out, cfg2, text, &r2);
         st.recompiles += 1;
         let again = if *csvd { &r2.dump_csv } else { &r2.dump };
-        let class = if has_tone1 {
+        // F18: two keys that differ only in the unspellable tone value merge when the dump is compiled again; the
+        // records stay the same, their order may change.  Anything else is not that finding.
+        let same_records = match again.as_ref().map(|t| read_dump(t, *csvd)) {
+            Some(Ok(mut v2)) => {
+                let mut v1 = recs.clone();
+                let key = |x: &Rec| (x.syls.clone(), x.phrase.clone(), x.freq);
+                v1.sort_by_key(key);
+                v2.sort_by_key(key);
+                v1 == v2
+            }
+            _ => false,
+        };
+        let class = if !tone1_keys.is_empty() && r2.exit == 0 && r2.reported.is_empty() && same_records {
             "F18-tone1"
         } else if undetected.iter().any(|(_, k, _)| *k == "empty-phrase") {
             "empty-phrase"
@@ -743,7 +781,7 @@ fn check_source(
                             let mut sb = b.clone();
                             sa.sort();
                             sb.sort();
-                            let class = if has_tone1 {
+                            let class = if tone1_keys.contains(&k) {
                                 "F18-tone1"
                             } else if cfg.sqlite && ks.len() == 1 && sa == sb {
                                 "F34-sqlite-order"
@@ -839,7 +877,7 @@ fn main() {
     }
 
     // generated well-formed sources, all eight configurations each
-    let n_sources = if thorough { 400 } else { 12 };
+    let n_sources = if thorough { 150 } else { 12 };
     let mut bases: Vec<(bool, Vec<(String, Rec)>)> = vec![];
     for i in 0..n_sources {
         let csv = i % 2 == 1;
@@ -849,7 +887,7 @@ fn main() {
         let mut lines: Vec<(String, Verdict)> = vec![];
         if csv {
             let h = if g.rng.chance(1, 3) { "phrase,freq,bopomofo".to_string() } else { header.to_string() };
-            lines.push((h, Verdict::Bad("header", None)));
+            lines.push((h, Verdict::Bad(vec!["header"], None)));
         }
         for (l, r) in &ls {
             let v = judge(l, d);
@@ -878,7 +916,7 @@ fn main() {
     // every single-line corruption of the first sources (one random configuration pair each), sampled for the rest
     for (bi, (csv, ls)) in bases.iter().enumerate() {
         let d = if *csv { ',' } else { ' ' };
-        let exhaustive = thorough || bi < 2;
+        let exhaustive = if thorough { bi < 40 } else { bi == 1 || bi == 2 }; // quick: one plain, one CSV source of at most 8 lines
         for li in 0..ls.len() {
             if !exhaustive && !g.rng.chance(1, 4) {
                 continue;
@@ -891,7 +929,7 @@ fn main() {
                 }
                 let mut lines: Vec<(String, Verdict)> = vec![];
                 if *csv {
-                    lines.push((header.to_string(), Verdict::Bad("header", None)));
+                    lines.push((header.to_string(), Verdict::Bad(vec!["header"], None)));
                 }
                 for (j, (l, _)) in ls.iter().enumerate() {
                     let l = if j == li { &bad } else { l };
